@@ -6305,4 +6305,256 @@ theorem pyLt_class_order' (a b c : Cell) (hab : a.key.rank = b.key.rank) (hbc : 
     generalize b.key = k
     cases k <;> simp
 
+/-! ## Phase 5: `sorted()` as a comparison sort with the raising `<` -/
+
+section SortE
+variable {α : Type} (f : α → Cell)
+
+/-- the raising comparison and the Boolean order `sorted` is specified with, through a key function -/
+def ltE (a b : α) : Except Err Bool := pyLt (f a) (f b)
+def ltB (a b : α) : Bool := (f a).key.lt (f b).key
+
+theorem Key.comparable_rank (a b : Key) (ha : a ≠ .missing) (hb : b ≠ .missing) :
+    a.comparable b = true ↔ (a.rank = b.rank ∧ a.rank ≤ 1) := by
+  cases a <;> cases b <;> simp_all [Key.comparable, Key.rank]
+
+theorem insertE_ok (x : α) : ∀ l : List α, (∀ y ∈ l, (f y).key.comparable (f x).key = true) →
+    insertE (ltE f) x l = .ok (insertBy (ltB f) x l)
+  | [], _ => rfl
+  | y :: ys, h => by
+    have hy := h y (by simp)
+    have ih := insertE_ok x ys (fun z hz => h z (by simp [hz]))
+    cases hlt : (f y).key.lt (f x).key
+    · simp [insertE, insertBy, ltE, pyLt, hy, ltB, hlt]
+    · simp [insertE, insertBy, ltE, pyLt, hy, ltB, hlt, ih]
+
+theorem insertE_sound (x : α) : ∀ (l r : List α), insertE (ltE f) x l = .ok r → r = insertBy (ltB f) x l
+  | [], r, h => by simp only [insertE, Except.ok.injEq] at h; simp [insertBy, ← h]
+  | y :: ys, r, h => by
+    simp only [insertE, ltE, pyLt] at h
+    by_cases hc : (f y).key.comparable (f x).key = true
+    · simp only [hc, if_true] at h
+      cases hlt : (f y).key.lt (f x).key
+      · simp only [hlt, Except.ok.injEq] at h
+        simp [insertBy, ltB, hlt, ← h]
+      · simp only [hlt] at h
+        cases hr : insertE (ltE f) x ys with
+        | error e => rw [hr] at h; cases h
+        | ok r' =>
+          rw [hr] at h
+          simp only [Except.ok.injEq] at h
+          have := insertE_sound x ys r' hr
+          simp [insertBy, ltB, hlt, ← h, this]
+    · simp only [hc] at h; cases h
+
+theorem insertE_err (x : α) : ∀ (l : List α) (e : Err), insertE (ltE f) x l = .error e → e = .typeError
+  | [], e, h => by simp [insertE] at h
+  | y :: ys, e, h => by
+    simp only [insertE, ltE, pyLt] at h
+    by_cases hc : (f y).key.comparable (f x).key = true
+    · simp only [hc, if_true] at h
+      cases hlt : (f y).key.lt (f x).key
+      · simp [hlt] at h
+      · simp only [hlt] at h
+        cases hr : insertE (ltE f) x ys with
+        | error e' => rw [hr] at h; simp only [Except.error.injEq] at h; exact h ▸ insertE_err x ys e' hr
+        | ok r' => rw [hr] at h; cases h
+    · simp only [hc] at h
+      simp only [Bool.false_eq_true, if_false, Except.error.injEq] at h
+      exact h.symm
+
+/-- the first comparison of an insertion into a non-empty list is with its head -/
+theorem insertE_head (x y : α) (ys r : List α) (h : insertE (ltE f) x (y :: ys) = .ok r) :
+    (f y).key.comparable (f x).key = true := by
+  simp only [insertE, ltE, pyLt] at h
+  by_cases hc : (f y).key.comparable (f x).key = true
+  · exact hc
+  · simp only [hc] at h; cases h
+
+theorem sortE_sound : ∀ (l s : List α), sortE (ltE f) l = .ok s → s = sortBy (ltB f) l
+  | [], s, h => by simp only [sortE, Except.ok.injEq] at h; simp [sortBy, ← h]
+  | x :: xs, s, h => by
+    simp only [sortE] at h
+    cases hs : sortE (ltE f) xs with
+    | error e => rw [hs] at h; cases h
+    | ok s' =>
+      rw [hs] at h
+      have e1 := sortE_sound xs s' hs
+      have e2 := insertE_sound f x s' s h
+      rw [e2, e1]; rfl
+
+theorem sortE_err : ∀ (l : List α) (e : Err), sortE (ltE f) l = .error e → e = .typeError
+  | [], e, h => by simp [sortE] at h
+  | x :: xs, e, h => by
+    simp only [sortE] at h
+    cases hs : sortE (ltE f) xs with
+    | error e' => rw [hs] at h; simp only [Except.error.injEq] at h; exact h ▸ sortE_err xs e' hs
+    | ok s' => rw [hs] at h; exact insertE_err f x s' e h
+
+theorem allComparable_cons (x : Cell) (xs : List Cell) :
+    allComparable (x :: xs) = true ↔ (∀ y ∈ xs, x.key.comparable y.key = true) ∧ allComparable xs = true := by
+  simp [allComparable]
+
+theorem allComparable_pairwise : ∀ l : List Cell, allComparable l = true ↔ l.Pairwise (fun a b => a.key.comparable b.key = true)
+  | [] => by simp [allComparable]
+  | x :: xs => by rw [allComparable_cons, List.pairwise_cons, allComparable_pairwise xs]
+
+theorem sortE_complete : ∀ l : List α, allComparable (l.map f) = true → sortE (ltE f) l = .ok (sortBy (ltB f) l)
+  | [], _ => rfl
+  | x :: xs, h => by
+    rw [List.map_cons, allComparable_cons] at h
+    have ih := sortE_complete xs h.2
+    simp only [sortE, ih, sortBy]
+    apply insertE_ok
+    intro y hy
+    have hy' : y ∈ xs := (sortBy_perm (ltB f) xs).mem_iff.mp hy
+    rw [Key.comparable_symm]
+    exact h.1 (f y) (List.mem_map_of_mem hy')
+
+theorem ltB_swo : IsSWO (ltB f) :=
+  ⟨fun _ _ h => Key.lt_asymm _ _ h, fun _ _ _ h1 h2 => Key.le_trans _ _ _ h1 h2⟩
+
+theorem pairwise_comparable_forall : ∀ (l : List α), l.Pairwise (fun a b => (f a).key.comparable (f b).key = true) →
+    ∀ a ∈ l, ∀ b ∈ l, a ≠ b → (f a).key.comparable (f b).key = true
+  | [], _, a, ha, _, _, _ => by cases ha
+  | x :: xs, h, a, ha, b, hb, hab => by
+    rw [List.pairwise_cons] at h
+    rcases List.mem_cons.mp ha with rfl | ha' <;> rcases List.mem_cons.mp hb with rfl | hb'
+    · exact absurd rfl hab
+    · exact h.1 b hb'
+    · rw [Key.comparable_symm]; exact h.1 a ha'
+    · exact pairwise_comparable_forall xs h.2 a ha' b hb' hab
+
+/-- a successful insertion sort has compared enough: all members are mutually comparable.
+(The new element meets the least member first; `Missing` sorts last, so the least member is `Missing`
+only if all are; two non-`Missing` members comparable with a third non-`Missing` one are in one class.) -/
+theorem sortE_ok_comparable : ∀ (l s : List α), sortE (ltE f) l = .ok s → allComparable (l.map f) = true
+  | [], _, _ => rfl
+  | x :: xs, s, h => by
+    simp only [sortE] at h
+    cases hs : sortE (ltE f) xs with
+    | error e => rw [hs] at h; cases h
+    | ok s' =>
+      rw [hs] at h
+      have ih := sortE_ok_comparable xs s' hs
+      rw [List.map_cons, allComparable_cons]
+      refine ⟨?_, ih⟩
+      intro c hc
+      obtain ⟨z, hz, rfl⟩ := List.mem_map.mp hc
+      have es := sortE_sound f xs s' hs
+      have hsorted : SortedBy (ltB f) s' := es ▸ sortBy_sorted (ltB f) (ltB_swo f) xs
+      have hperm : s'.Perm xs := es ▸ sortBy_perm (ltB f) xs
+      by_cases hxm : (f x).key = .missing
+      · rw [hxm]; rfl
+      by_cases hzm : (f z).key = .missing
+      · rw [hzm]; cases (f x).key <;> rfl
+      have hzs : z ∈ s' := hperm.mem_iff.mpr hz
+      cases s' with
+      | nil => cases hzs
+      | cons y ys =>
+        have hyx := insertE_head f x y ys s h
+        have hyxs : y ∈ xs := hperm.mem_iff.mp (by simp)
+        -- y is least, so it is not Missing
+        have hym : (f y).key ≠ .missing := by
+          intro hym
+          rcases List.mem_cons.mp hzs with rfl | hzys
+          · exact hzm hym
+          · have := (List.pairwise_cons.mp hsorted).1 z hzys
+            simp only [ltB, hym] at this
+            revert this hzm
+            cases (f z).key <;> simp [Key.lt, Key.rank]
+        have r1 := (Key.comparable_rank _ _ hym hxm).mp hyx
+        by_cases hzy : z = y
+        · subst hzy; rw [Key.comparable_symm]; exact hyx
+        · have hpw : xs.Pairwise (fun a b => (f a).key.comparable (f b).key = true) := by
+            have := (allComparable_pairwise _).mp ih
+            exact List.pairwise_map.mp this
+          have hzyc := pairwise_comparable_forall f xs hpw z hz y hyxs hzy
+          have r2 := (Key.comparable_rank _ _ hzm hym).mp hzyc
+          apply (Key.comparable_rank _ _ hxm hzm).mpr
+          omega
+
+/-- **`sorted()` as a comparison sort**: the stable insertion sort that asks Python's raising `<`
+equals the specification-level `sorted` (TypeError iff two members are incomparable, else the stable arrangement) -/
+theorem sortE_eq (l : List α) :
+    sortE (ltE f) l = if allComparable (l.map f) then .ok (sortBy (ltB f) l) else .error .typeError := by
+  by_cases h : allComparable (l.map f) = true
+  · simp only [h, if_true]; exact sortE_complete f l h
+  · simp only [h]
+    cases hs : sortE (ltE f) l with
+    | ok s => exact absurd (sortE_ok_comparable f l s hs) h
+    | error e => rw [sortE_err f l e hs]; rfl
+
+end SortE
+
+theorem pySortedE_eq' (vs : List Cell) : pySortedE vs = pySorted vs := by
+  have := sortE_eq (fun c : Cell => c) vs
+  simp only [List.map_id'] at this
+  exact this
+
+theorem pySortedByE_eq' (k : Nat → Cell) (xs : List Nat) : pySortedByE k xs = pySortedBy k xs :=
+  sortE_eq k xs
+
+theorem sorted_raises_iff' (vs : List Cell) :
+    pySortedE vs = .error .typeError ↔ ¬ vs.Pairwise (fun a b => ∃ r, pyLt a b = .ok r) := by
+  rw [pySortedE_eq', pySorted]
+  have hp : vs.Pairwise (fun a b => ∃ r, pyLt a b = .ok r) ↔ allComparable vs = true := by
+    rw [allComparable_pairwise]
+    apply List.Pairwise.iff
+    intro a b
+    unfold pyLt
+    by_cases hc : a.key.comparable b.key = true <;> simp [hc]
+  rw [hp]
+  by_cases h : allComparable vs = true <;> simp [h]
+
+/-! ## Phase 5: observables of a view refine the `Sel` model -/
+
+theorem Table.OK.toDicts_eq {t : Table} {N : Nat} (h : t.OK N) (hne : t.columns ≠ []) :
+    t.toDicts = .ok ((List.range (t.m N)).map (fun i => t.columns.zip (t.rowAt i))) := by
+  simp [Table.toDicts, h.rows_eq hne, List.map_map, Function.comp_def]
+
+theorem view_observables' (t : Table) (N : Nat) (hok : t.OK N) (hne : t.columns ≠ []) :
+    t.len = .ok (t.m N) ∧
+    t.toDicts = .ok ((List.range (t.m N)).map (fun i => t.columns.zip (t.rowAt i))) ∧
+    ∀ c ∈ t.columns, ∃ o, t.colObs c = .ok o ∧ o.kind = t.sel.kind ∧ o.len = t.m N ∧ o.items = .ok (t.vcol c) ∧
+      (0 < t.m N → o.first = .ok (cellAt (t.vcol c) 0)) := by
+  have hd : t.data ≠ [] := by
+    cases hc : t.columns with
+    | nil => exact absurd hc hne
+    | cons c _ =>
+      obtain ⟨b, hb⟩ := hok.cols c (by simp [hc])
+      intro hnil
+      simp [lookupCol, hnil] at hb
+  refine ⟨hok.len_eq hd, hok.toDicts_eq hne, ?_⟩
+  intro c hc
+  obtain ⟨b, hb⟩ := hok.cols c hc
+  obtain ⟨e1, sh⟩ := hok.col_shows hb
+  have hl := hok.vcol_len hb
+  refine ⟨{ kind := t.sel.kind, len := Seq.len { base := b, sel := t.sel }, items := Seq.toList { base := b, sel := t.sel },
+            first := Seq.get { base := b, sel := t.sel } 0, last := Seq.getLast { base := b, sel := t.sel } },
+          by simp only [Table.colObs, e1], rfl, ?_, sh.toList, ?_⟩
+  · show Seq.len { base := b, sel := t.sel } = t.m N
+    rw [sh.len, hl]
+  · intro hpos
+    exact sh.get 0 (by rw [hl]; exact hpos)
+
+theorem view_of_view_observables' (t : Table) (N : Nat) (hok : t.OK N) (hne : t.columns ≠ []) (select : List Nat)
+    (hinc : StrictInc select) (hlt : ∀ i ∈ select, i < t.m N) :
+    ∃ sel', composeSel t.sel select = .ok sel' ∧
+      Table.len { t with sel := sel' } = .ok select.length ∧
+      Table.toDicts { t with sel := sel' } = .ok (select.map (fun i => t.columns.zip (t.rowAt i))) := by
+  obtain ⟨sel', e, hidx, hselok⟩ := composeSel_spec t.sel N hok.sel select hinc (fun i hi => by simpa [Table.m] using hlt i hi)
+  have hok' : Table.OK { t with sel := sel' } N := ⟨hok.len, hok.cols, hselok⟩
+  have hm : Table.m { t with sel := sel' } N = select.length := by simp [Table.m, hidx]
+  obtain ⟨h1, h2, _⟩ := view_observables' { t with sel := sel' } N hok' hne
+  refine ⟨sel', e, by rw [h1, hm], ?_⟩
+  rw [h2, hm]
+  congr 1
+  apply List.ext_getElem (by simp)
+  intro k hk1 hk2
+  simp only [List.getElem_map, List.getElem_range]
+  have hk : k < select.length := by simpa using hk2
+  rw [rowAt_view t N hok sel' select hidx hlt k hk]
+  simp [List.getD, List.getElem?_eq_getElem hk]
+
 end Coba.C17
